@@ -1497,6 +1497,10 @@ func main() {
 			fmt.Fprintln(os.Stderr, "hC04: units:", err)
 			os.Exit(3)
 		}
+		if err := runGen(w, *seed, *tier); err != nil {
+			fmt.Fprintln(os.Stderr, "hC04: gen:", err)
+			os.Exit(3)
+		}
 	}
 	if err := w.Close(); err != nil {
 		panic(err)
